@@ -19,9 +19,16 @@ cond (prefix): all | eq k v | in k v,v | and c c | or c c
 -/
 import LinVerif.Util.Proto
 import LinVerif.Model.MemDB
+import LinVerif.Generated.C11
 
 namespace LinVerif.Driver.C11
 open LinVerif LinVerif.NaiveQuery LinVerif.MemDB
+
+/-- the code variant the regenerated facts describe. -/
+def cfgOfFacts : Cfg :=
+  ⟨Generated.C11.fixEndGuard, Generated.C11.fixMergeOldFirst, Generated.C11.fixUniqueCreated,
+   Generated.C11.fixNotFoundIgnored, Generated.C11.fixSingleFieldByIndex, Generated.C11.fixAggregateByType,
+   Generated.C11.fixMonthFamilyTime⟩
 
 structure St where
   shard : Shard
@@ -29,7 +36,7 @@ structure St where
   series : List (Nat × Tags)
   points : List Point
 
-def St.init : St := ⟨Shard.init 15, 360, [], []⟩
+def St.init : St := ⟨Shard.initV cfgOfFacts 15, 360, [], []⟩
 
 def splitBar (ws : List String) : List (List String) :=
   ws.foldr (fun w acc => if w = "|" then [] :: acc else
@@ -178,7 +185,7 @@ def step (st : St) (ws : List String) : St × String :=
   match ws with
   | ["reset", w, spf] =>
     match w.toNat?, spf.toNat? with
-    | some w, some spf => if w = 0 ∨ spf = 0 then (st, "bad-op") else (⟨Shard.init w, spf, [], []⟩, "ok")
+    | some w, some spf => if w = 0 ∨ spf = 0 then (st, "bad-op") else (⟨Shard.initV cfgOfFacts w, spf, [], []⟩, "ok")
     | _, _ => (st, "bad-op")
   | "schema" :: fields =>
     match fields.mapM parsePair with
@@ -251,7 +258,7 @@ def step (st : St) (ws : List String) : St × String :=
     | some lens, some qs, some qe, some fams =>
       if qe < qs then (st, "bad-op")
       else
-        let sel := monthSelect lens fams qs qe
+        let sel := monthSelectV cfgOfFacts lens fams qs qe
         (st, if sel.isEmpty then "sel" else "sel " ++ Proto.joinNat sel)
     | _, _, _, _ => (st, "bad-op")
   | _ => (st, "bad-op")
